@@ -21,7 +21,8 @@ class Agg:
         self.evaluations = 0
         self.counters = {}        # name -> int   (probes, faults, strategies…)
         self.nontrivial = set()   # 64-bit digests of distinct non-trivial cases
-        self.failures = []        # dicts: {index, seed, check_id, message, case, known}
+        self.failures = []        # dicts: {index, seed, check_id, message, case}
+        self.known = []           # same, for runs explained by an open known finding
         self.samples = []         # a few cases as run
         self.sets = {}            # name -> set of small hashables (distinct measures)
         self.sums = {}            # name -> float
@@ -50,6 +51,9 @@ class Agg:
         for f in o.failures:
             if len(self.failures) < max_fail:
                 self.failures.append(f)
+        for f in o.known:
+            if len(self.known) < max_fail:
+                self.known.append(f)
         for s in o.samples:
             if len(self.samples) < max_samples:
                 self.samples.append(s)
